@@ -71,7 +71,7 @@ class Ctx:
             if k['signature'] == signature:
                 if k not in self.known_hits:
                     self.known_hits.append(k)
-                return
+                return 'known'
         if any(v['signature'] == signature for v in self.violations):
             return
         os.makedirs(os.path.join(env.VERIF, 'replay'), exist_ok=True)
@@ -84,9 +84,15 @@ class Ctx:
         json.dump(doc, open(path, 'w'), indent=1, default=str)
         self.violations.append(dict(signature=signature, what=what, path=path, found_input=found_input))
 
+    def disagree(self, name, detail, signature, what, replay):
+        """A correspondence disagreement for which the check has established a failing input on the real code:
+        a recorded finding is reported as such; anything else breaks the correspondence and is a violation."""
+        if self.violation(signature, what, replay) != 'known':
+            self.mark_broken(name, detail)
+
     def finish(self):
         # a broken obligation/correspondence for which no failing input was found is still a violation
-        if self.broken and not any(v['found_input'] for v in self.violations) and not self.known_hits:
+        if self.broken and not any(v['found_input'] for v in self.violations):
             names = [b[0] for b in self.broken]
             self.violation('broken:' + ';'.join(names), 'obligation or correspondence no longer checks; no failing input found',
                            dict(kind='broken', broken=[{'name': n, 'detail': d} for n, d in self.broken]), found_input=False)
